@@ -218,8 +218,8 @@ def openFile (s : Store) (v : View) (vid : Nat) (name : Bytes) (flag perm : Nat)
   | some c =>
     match s.get c with
     | some (.file m d nl id) =>
-      if !checkPerm m om v then (s, .error .EACCES) else
       if om &&& omExcl != 0 then (s, .error .EEXIST) else
+      if !checkPerm m om v then (s, .error .EACCES) else
       let d1 := if om &&& omTrunc != 0 then [] else d
       let s1 := if om &&& omTrunc != 0 then s.set c (.file m d1 nl id) else s
       -- the append position is evaluated at each Write (see File model); `at` starts at 0
